@@ -10,6 +10,19 @@ TRUSTED_COMMON = [
 ]
 
 PROPS = {
+    "C19": dict(
+        suites=[190],
+        design_ref="DESIGN.md section 5, C19",
+        rule=("suite 190: kinds 0-3 set/get_method and set/get_status for all 8 / 28 named values and on raw states with every one of the 256 code bytes plus the UnKnown and Reserved(named byte) forms; kind 4 set_path with every string of length <= 5 (thorough 6) over {'/', 'a', '.', two-byte char} "
+              "on fresh and random packets plus random strings incl. 3- and 4-byte code points; kind 5 get_path / get_path_as_vec on raw Uri-Path values incl. invalid UTF-8; kinds 6-7 observe flag set and raw Observe bytes of length 0..6; kind 8 set_content_format for all 60 formats on random states "
+              "(set twice, set after raw add); kinds 9-11 set_from_message and the readable view through coap-message 0.2 and 0.3 on random messages; verdict computed on the raw state only; class = kind; non-trivial = in domain; distinct = distinct input"),
+        level_text=("Theorems for all packet states: C19_method / C19_status (getter after setter returns the value for all 8 / 28 variants, nothing else changes), C19_method_of_code / C19_status_of_code (what the getters read for each of the 256 code bytes), "
+                    "C19_path (raw Uri-Path values = segments, get_path = the string minus one leading slash, get_path_as_vec = the segments, other options untouched) with the inductive lemma C19_path_join, C19_observe_flag / C19_observe_flag_raw, "
+                    "C19_content_format (set_content_format then get_content_format returns the format whatever was there before; raw option 12 = [minimal uint]), C19_copy (set_from_message into a fresh packet preserves code byte, flattened options in ascending order, payload)."),
+        level_note=("Hand-written models of the accessors and trait impls tied to the Rust by differential execution (dev and release). C19_path is stated for strings whose '/'-separated segments are valid UTF-8; that this is the same as the whole string being valid is tested (suite 190 kind 4), not proved. "
+                    "The option-flattening iterator of the trait impls is modelled as flatten; its loop is covered by the differential run only."),
+        modelled="src/request.rs get/set_method, set_path, get_path, get_path_as_vec, get/set_observe_flag; src/response.rs get/set_status; src/packet.rs set/get_content_format; src/impl_coap_message.rs, src/impl_coap_message_0_3.rs (ReadableMessage, MinimalWritableMessage incl. provided set_from_message)",
+    ),
     "C13": dict(
         suites=[130],
         design_ref="DESIGN.md section 5, C13",
@@ -130,7 +143,6 @@ NOT_APPLICABLE = {
     "C16": "check under construction in this development (model and theorems not yet committed)",
     "C17": "check under construction in this development (model and theorems not yet committed)",
     "C18": "check under construction in this development (model and theorems not yet committed)",
-    "C19": "check under construction in this development (model and theorems not yet committed)",
     "C20": "check under construction in this development (model and theorems not yet committed)",
 }
 HOOK_COMMITS = []
